@@ -437,9 +437,10 @@ written by the pickler.  `resolve` = whether the adapter's reader resolves `py/i
 
 structure Cfg where
   decoderResolvesRefs : Bool
+  saveAfterEveryStepRequest : Bool   -- wave 3: see `stepReq`
 deriving DecidableEq, Repr
 
-def Cfg.good (c : Cfg) : Bool := c.decoderResolvesRefs
+def Cfg.good (c : Cfg) : Bool := c.decoderResolvesRefs && c.saveAfterEveryStepRequest
 
 def settingsJ (ident : Nat → Nat) : Stored → J
   | .plain s => encode (logPV ident s.settingsLog)
@@ -457,5 +458,40 @@ def pickleCodec (c : Cfg) (ident : Nat → Nat) : Codec (Envelope × J) :=
   { enc := fun e => ({ e with stored := blankS e.stored }, settingsJ ident e.stored)
     dec := fun f => (decode c.decoderResolvesRefs f.2).bind fun t =>
       (fillS f.1.stored t).map fun s => { f.1 with stored := s } }
+
+/-! ### wave 3: several sessions on one instance, and WHEN the instance is written
+
+`begin-session` installs a new session (other scenario managers / scenarios / equations / settings, clock at its
+start time) and writes nothing; `end-session` drops the session; every step-advancing request (`run-step`,
+`run-steps`, `stream-steps`: any number of steps) is followed by `save_instance(_get_instance_state(id))`.
+Mechanism fact `saveAfterEveryStepRequest`: that save is unconditional.  The defective variant remembers the
+session clock it wrote last and skips the write when the clock is the same — but the clock does not identify
+the session: a second session stepped to the same clock position is never written, the file keeps the old one. -/
+
+inductive Req where
+  | beginSession (spec : RunSpec)
+  | endSession
+  | steps (ops : List StepOp)
+
+structure IState where
+  session : Option Session      -- live (`bptk.session_state`)
+  file : Option Session         -- what the state file of the instance holds
+  savedStep : Option Time       -- the clock remembered at the last write (used by the defective variant only)
+
+def IState.init : IState := { session := none, file := none, savedStep := none }
+
+def stepReq (c : Cfg) (st : IState) : Req → IState
+  | .beginSession spec => { st with session := some (begin spec) }
+  | .endSession => { st with session := none }
+  | .steps ops =>
+    match st.session with
+    | none => st
+    | some s =>
+      let s' := ops.foldl runStep s
+      if c.saveAfterEveryStepRequest || st.savedStep != some s'.step then
+        { session := some s', file := some s', savedStep := some s'.step }
+      else { st with session := some s' }
+
+def runReqs (c : Cfg) (reqs : List Req) : IState := reqs.foldl (stepReq c) IState.init
 
 end Bptk.C19
